@@ -951,7 +951,11 @@ def lazily_stage_wrapper(plan):
     devices_staged = []
 
     def inner(msg):
-        if msg.command in COMMANDS and msg.obj not in devices_staged:
+        if (
+            msg.command in COMMANDS
+            and msg.obj not in devices_staged
+            and root_ancestor(msg.obj) not in devices_staged
+        ):
             root = root_ancestor(msg.obj)
 
             def new_gen():
